@@ -2,6 +2,7 @@ package shipsim
 
 import (
 	"fmt"
+	"regexp"
 	"strings"
 )
 
@@ -73,6 +74,9 @@ func phaseOf(s uint) int {
 var phaseName = []string{"init", "hello", "protocol", "pin", "access", "approved", "complete"}
 
 // Facts are per-side projections of the log.
+// a close announce in the exact form the library writes (no other spelling is relied upon)
+var closeAnnounceRe = regexp.MustCompile(`^\x03\{"connectionClose":\[\{"phase":"announce"\}(,\{"maxTime":[0-9]{1,4}\})?(,\{"reason":"[A-Za-z ]*"\})?\]\}$`)
+
 type Facts struct {
 	States   [2][]int // log indices of "state" observations
 	Setups   [2][]int
@@ -307,6 +311,15 @@ func monitorC04(tr *Trace) (key, msg string) {
 			}
 			if tr.Script.Settle && !tr.Stable[s].TrClosed {
 				return "C04/transport-open-after-terminal", fmt.Sprintf("%s ended in terminal state %d but its transport is still open ten virtual minutes later", sideName[s], tr.Log[terminalAt].State)
+			}
+		}
+		// "closed" is a terminal outcome too: a connection that was told by its peer that it closes
+		// (a well-formed close announce, as the library itself writes it) ends with its transport closed
+		if tr.Script.Settle && tr.Panic == "" && !tr.Stable[s].TrClosed {
+			for _, i := range f.Arrive[s] {
+				if closeAnnounceRe.MatchString(tr.Log[i].Data) {
+					return "C04/transport-open-after-close-announce", fmt.Sprintf("%s received a close announce (%s) but its transport is still open ten virtual minutes later", sideName[s], describe(tr.Log[i]))
+				}
 			}
 		}
 		if f.TrClosedAt[s] >= 0 {
